@@ -2,6 +2,7 @@ import Driver.Common
 import IoraModel.Model.RingBuffer
 import IoraModel.Model.BlockingQueue
 import IoraModel.Model.RingSpsc
+import IoraModel.Model.RingThrow
 /-! Driver for C10 (`iora_model queues`): sequential ring ops (`ring …`), blocking-queue ops (`bq …`) and replay of
 DetSched schedules through the monitor model (`bq replay …`). -/
 namespace Iora.Driver.Queues
@@ -9,6 +10,8 @@ open Iora Iora.Driver
 
 structure St where
   ring : Ring.Ring Nat := Ring.mkStatic 0 1
+  ringT : Ring.Ring RingT.Cell := Ring.mkStatic none 1
+  dynT : Bool := false
   dynamic : Bool := false
   bq : Option (Monitor.State BQ.Data BQ.Loc) := none
   spsc : Spsc.S := { pTodo := [], qTodo := [] }
@@ -24,6 +27,9 @@ def tailOf (r : Ring.Ring Nat) : String := s!" | h={r.head.toNat} t={r.tail.toNa
 
 def isPow2 (n : Nat) : Bool := n > 0 && (n &&& (n - 1)) == 0
 
+/-- the `RingBuffer<uint64_t, N>` instantiations the harness has -/
+def staticCap (n : Nat) : Bool := (isPow2 n && n ≤ 64) || n == 128 || n == 1024 || n == 65536
+
 def u64? (s : String) : Option UInt64 :=
   match s.toNat? with
   | some n => if n < 2 ^ 64 then some (UInt64.ofNat n) else none
@@ -32,11 +38,15 @@ def u64? (s : String) : Option UInt64 :=
 def ringStep (st : St) : List String → St × String
   | ["new", "s", c] =>
     match c.toNat? with
-    | some n => if isPow2 n && n ≤ 64 then ({ ring := Ring.mkStatic 0 (UInt64.ofNat n), dynamic := false }, s!"ok cap={n}") else (st, "bad-op")
+    | some n => if staticCap n then ({ ring := Ring.mkStatic 0 (UInt64.ofNat n), dynamic := false }, s!"ok cap={n}") else (st, "bad-op")
     | none => (st, "bad-op")
   | ["new", "d", c] =>
     match u64? c with
     | some n => let r := Ring.mkDynamic 0 n; ({ ring := r, dynamic := true }, s!"ok cap={r.cap.toNat}")
+    | none => (st, "bad-op")
+  | ["npot", n] =>
+    match u64? n with
+    | some n => (st, toString (Ring.nextPowerOfTwo n).toNat)
     | none => (st, "bad-op")
   | ["seed", b] =>
     match u64? b with
@@ -71,6 +81,72 @@ def ringStep (st : St) : List String → St × String
     | none => (st, "bad-op")
   | _ => (st, "bad-op")
 
+/-! ### rings of a throwing element type (`ringt …`, Model/RingThrow.lean) -/
+def showCell : RingT.Cell → String
+  | some x => toString x
+  | none => "M"
+
+def showCells (xs : List RingT.Cell) : String :=
+  if xs.isEmpty then "-" else ",".intercalate (xs.map showCell)
+
+def tailT (r : Ring.Ring RingT.Cell) : String :=
+  let n := (r.head - r.tail).toNat
+  s!" | h={r.head.toNat} t={r.tail.toNat} w={if n > 64 then "?" else showCells (Ring.readFrom r r.tail n)}"
+
+def armOf (s : String) : Option Nat := if s.startsWith "@" then (s.drop 1).toNat? else none
+
+def showRes (r : Ring.Ring RingT.Cell) : RingT.Res → (Ring.Out RingT.Cell → String) → String
+  | .ok o, f => f o ++ tailT r
+  | .threw k got, _ => s!"throw {k}" ++ (if got.isEmpty then "" else " " ++ showCells got) ++ tailT r
+
+def ringtOp (st : St) (arm : Nat) : List String → St × String
+  | ["push", v] | ["pushm", v] =>
+    match v.toNat? with
+    | some x => let (r, res) := RingT.tryPush st.ringT arm (some x)
+                ({ st with ringT := r }, showRes r res (fun o => match o with | .bool b => bit b | _ => "?"))
+    | none => (st, "bad-op")
+  | ["pop"] =>
+    let (r, res) := RingT.tryPop st.ringT arm
+    ({ st with ringT := r }, showRes r res (fun o => match o with | .item (some c) => "1 " ++ showCell c | _ => "0"))
+  | ["peek"] =>
+    let (r, res) := RingT.peek st.ringT arm
+    ({ st with ringT := r }, showRes r res (fun o => match o with | .item (some c) => "1 " ++ showCell c | _ => "0"))
+  | ["pushb", l] =>
+    match parseList l with
+    | some xs => let (r, res) := RingT.tryPushBatch st.ringT arm (xs.map some)
+                 ({ st with ringT := r }, showRes r res (fun o => match o with | .count n => toString n | _ => "?"))
+    | none => (st, "bad-op")
+  | ["popb", n] =>
+    match n.toNat? with
+    | some n => if n > 4096 then (st, "bad-op") else
+                let (r, res) := RingT.tryPopBatch st.ringT arm n
+                ({ st with ringT := r }, showRes r res (fun o => match o with | .items xs => s!"{xs.length} {showCells xs}" | _ => "?"))
+    | none => (st, "bad-op")
+  | ["resize", n] =>
+    if !st.dynT then (st, "bad-op") else
+    match n.toNat? with
+    | some n => if n > 4096 then (st, "bad-op") else
+                let (r, res) := RingT.resize st.ringT arm (UInt64.ofNat n)
+                ({ st with ringT := r }, showRes r res (fun o => match o with | .count d => s!"{d} cap={r.cap.toNat}" | _ => "?"))
+    | none => (st, "bad-op")
+  | ["size"] => (st, toString (Ring.size st.ringT).toNat ++ tailT st.ringT)
+  | _ => (st, "bad-op")
+
+def ringtStep (st : St) : List String → St × String
+  | ["new", "d", c] =>
+    match c.toNat? with
+    | some n => if n ≤ 4096 then let r := Ring.mkDynamic none (UInt64.ofNat n); ({ st with ringT := r, dynT := true }, s!"ok cap={r.cap.toNat}")
+                else (st, "bad-op")
+    | none => (st, "bad-op")
+  | ["new", "s", "8"] => ({ st with ringT := Ring.mkStatic none 8, dynT := false }, "ok cap=8")
+  | ws =>
+    match ws.getLast? with
+    | some l =>
+      match armOf l with
+      | some k => if ws.length > 1 && k ≤ 100000 then ringtOp st k ws.dropLast else (st, "bad-op")
+      | none => if l.startsWith "@" then (st, "bad-op") else ringtOp st 0 ws
+    | none => (st, "bad-op")
+
 /-! ### the SPSC interleaving model, one call at a time with fresh reads (same answers as `ring …` expected) -/
 def spscTail (s : Spsc.S) : String := s!" | h={s.head} t={s.tail}"
 
@@ -78,7 +154,7 @@ def spscStep (st : St) : List String → St × String
   | ["new", k, c] =>
     match c.toNat? with
     | some n =>
-      let cap := if k = "s" then (if isPow2 n && n ≤ 64 then some n else none)
+      let cap := if k = "s" then (if staticCap n then some n else none)
                  else if k = "d" then (if n < 2 ^ 64 then some (Ring.nextPowerOfTwo (UInt64.ofNat n)).toNat else none) else none
       match cap with
       | some cap => ({ st with spsc := { pTodo := [], qTodo := [] }, spscCfg := { st.spscCfg with C := cap } }, s!"ok cap={cap}")
@@ -231,6 +307,10 @@ def bqStep (st : St) : List String → St × String
   | ["df", _] => seqCall st .dequeueFor
   | ["td"] => seqCall st .tryDequeue
   | ["close"] => seqCall st .close
+  -- `~BlockingQueue()` with nobody inside: the body is `close()` (translator fact `("~BlockingQueue#0", [("call", "close", …)])`), then the object is gone
+  | ["destroy"] => match st.bq with
+    | some _ => let (st', _) := seqCall st .close; ({ st' with bq := none }, "ok")
+    | none => (st, "no-queue")
   | ["size"] => seqCall st .size
   | ["empty"] => seqCall st .empty
   | ["full"] => seqCall st .full
@@ -246,6 +326,7 @@ def bqStep (st : St) : List String → St × String
 
 def step (st : St) : List String → St × String
   | "ring" :: rest => ringStep st rest
+  | "ringt" :: rest => ringtStep st rest
   | "spsc" :: rest => spscStep st rest
   | "bq" :: rest => bqStep st rest
   | _ => (st, "bad-op")
